@@ -28,6 +28,10 @@ def _catalogue():
              {"x": {"y": {"z": [1, 2]}}}, [deque([1]), Counter("a")], {(1, 2): [3, 4], "k": ()}, [[[[0]]]],
              [array("i", [1]), array("i")], (defaultdict(int), [defaultdict(list, {"a": [1]})]), [set(), {frozenset()}],
              [1, [2, [3, [4, 5]]], "中'"], {"a": "a\nb", "b": b"x"}, [None, True, 1.5, -1]]
+    # the same (empty / non-empty) object occurring more than once is not a cycle
+    shared_empty, shared = [], [1]
+    vals += [((), ()), [(), [], ()], {"a": (), "b": ()}, [shared_empty, shared_empty], [shared, shared, [shared]],
+             (frozenset(), frozenset()), {"k": shared, "l": [shared]}]
     return vals
 
 
@@ -238,3 +242,54 @@ def c16_cycles(e):
         want = "[1, [2, ...]]"
     s = pretty_repr(v, max_width=w, expand_all=ea)
     return flatten(s) == norm(want)
+
+
+# --- symbolic max_width: every width at once (S over the width; structure from the catalogue) -----------------------------
+from vf.symx import SymBool, SymInt, sym_and  # noqa: E402
+
+
+def _truth(x):
+    return True if x else False
+
+
+def _mk_symw(lo, hi, tiers, timeout):
+    @symx("C16-symbolic-width-values%d-%d" % (lo, hi), tiers=tiers, timeout=timeout, kind="S", functions=F_P,
+          bounds="catalogue values %d..%d x indent_size 1..4 (enumerated) with max_width SYMBOLIC over 1..1,000,000: Node.render / "
+                 "check_length branch on it, so each path is one layout valid for a whole interval of widths; on every path: token "
+                 "order equals the reference one-line form, eval round trip, repr equality whenever it fits (basic containers), no "
+                 "over-wide line keeps an unexpanded non-empty container" % (lo, hi - 1),
+          outside="values outside the catalogue")
+    def h(e):
+        v = VALUES[int(e.mk("value", lo, hi - 1))]
+        ind = int(e.mk("indent_size", 1, 4))
+        w = e.mk("max_width", 1, 1000000)
+        s = pretty_repr(v, max_width=w, indent_size=ind)
+        one = ref_repr(v)
+        if flatten(s) != norm(one):
+            return False
+        if not any(type(x) is defaultdict for x in _walk(v)):
+            back = _try_eval(s)
+            if back is _FAIL or not same_typed(back, v):
+                return False
+        if only_basic(v) and _truth(cell_len(one) <= w) and s != one:
+            return False
+        if "\n" not in s and type(v) in CONTAINERS and len(v) and _truth(cell_len(s) > w):
+            return False
+        # layout: the same structural checks as layout_ok, with the width comparisons decided by the solver
+        for line in s.split("\n"):
+            body = line.lstrip(" ")
+            core = body[:-1] if body.endswith(",") else body
+            if core[:1] in ("]", "}", ")") or (core.endswith(("[", "{", "(")) and not _evaluates(core)):
+                continue
+            if _truth(cell_len(line) > w):
+                val = _try_eval(core)
+                if val is _FAIL and ": " in core:
+                    val = _try_eval(core.split(": ", 1)[1])
+                if val is not _FAIL and type(val) in CONTAINERS and len(val) > 0:
+                    return False
+        return True
+    return h
+
+
+for _lo in range(0, _N, 16):
+    _mk_symw(_lo, min(_N, _lo + 16), ("quick", "thorough"), 900)
